@@ -380,6 +380,29 @@ def leap_case(rng, outs=False):
                        "S": 60} for i in range(ns)]}
 
 
+def year_list_cases():
+    """deployment-year lists of every shape against the simulated years 2024..2026 (+ one run with a trailing
+    partial year), for a mobile and a stationary method"""
+    out = []
+    shapes = [[], [2025], [2023, 2025], [2027, 2028], [2022, 2023], [2024, 2025, 2026, 2027], [2026, 2027]]
+    for kind in ("routine", "stationary"):
+        for yrs in shapes:
+            for (start, end, nd) in (([2024, 12, 20], [2026, 12, 31], 40), ([2025, 6, 25], [2026, 12, 31], 30)):
+                out.append({"kind": kind, "method_class": "site", "start": start, "end": end, "ndays": nd,
+                            "crews": 2, "cap": 2 if kind == "routine" else None, "T": 0, "hours": 8, "weather": [],
+                            "forced": [] if kind == "routine" else None,
+                            "sites": [{"id": i + 1, "freq": 4, "deploy": True, "months": list(range(1, 13)),
+                                       "years": list(yrs), "S": 60} for i in range(3)]})
+        # trailing partial year named in the list (known KeyError class) and not named
+        for yrs in ([2025, 2026], [2025]):
+            out.append({"kind": kind, "method_class": "site", "start": [2025, 12, 28], "end": [2026, 3, 1], "ndays": 8,
+                        "crews": 1, "cap": 2 if kind == "routine" else None, "T": 0, "hours": 8, "weather": [],
+                        "forced": [] if kind == "routine" else None,
+                        "sites": [{"id": 1, "freq": 12, "deploy": True, "months": list(range(1, 13)),
+                                   "years": list(yrs), "S": 60}]})
+    return out
+
+
 def boundary_cases():
     """structured small cases around month / year ends (the finding classes and their neighbours)"""
     out = []
@@ -637,6 +660,7 @@ def run(ctx):
     rng = ctx.rng
     witnesses(ctx)
     run_loop_cases(ctx, boundary_cases(), tag="boundary")
+    run_loop_cases(ctx, year_list_cases(), tag="year-lists")
     cases = [loop_case(rng) for _ in range(ctx.pick(45, 450))]
     cases += [loop_case(rng, stationary=True) for _ in range(ctx.pick(30, 300))]
     metas = run_loop_cases(ctx, cases)
